@@ -692,6 +692,24 @@ func (c *fctx) forStmt() []*S {
 		} else {
 			loop.Body = d.block(nb)
 		}
+		if c.gen && !c.inLit && r.Chance(1, 5) {
+			// the body STARTS with a switch whose case yields and then breaks out of the switch
+			// (nothing in front of it: after the optimiser the switch is one value that every
+			// iteration runs again); later iterations must enter the switch like the first
+			var after *S = &S{K: SYield, ID: c.g.id(), E: bin(v(ctr), "+", lit(r.Range(30, 40)))}
+			if c.g.cfg.Deleg && r.Bool() {
+				if ys := c.yieldFromX(false); len(ys) == 1 && ys[0].K == SYieldFrom {
+					after = ys[0]
+				}
+			}
+			sw := &S{K: SSwitch, ID: c.g.id(), E: bin(v(ctr), "%", lit(2)), Cases: []*Case{
+				{Vals: []*X{lit(0)}, Body: []*S{{K: SYield, ID: c.g.id(), E: bin(v(ctr), "+", lit(r.Range(10, 20)))},
+					{K: SIf, ID: c.g.id(), E: bin(v(ctr), "<", lit(r.Range(0, 3))), Body: []*S{{K: SBreak, ID: c.g.id()}}}, after}},
+				{Default: true, Body: []*S{{K: SYield, ID: c.g.id(), E: bin(v(ctr), "+", lit(r.Range(20, 30)))}, {K: SBreak, ID: c.g.id()}}},
+			}}
+			loop.Body = append([]*S{sw}, loop.Body...)
+			c.g.mark("loop_body_starts_with_a_switch_left_by_break_after_a_yield")
+		}
 		if r.Chance(1, 4) {
 			// the loop variable is written ONLY through a closure created in the body and
 			// called within the same iteration: condition and post must see the update
